@@ -61,7 +61,7 @@ class SendSite:
 
 def all_sends(prog, crates=None):
     out = []
-    for f in prog.fns.values():
+    for f in prog.bodies():
         if f.kind in ('promoted', 'const'):
             continue
         if crates and f.crate not in crates:
